@@ -150,6 +150,7 @@ class VM:
     ):
         self.memory_limit = memory_limit
         self.time_limit = time_limit
+        self.context = None  # The Context this interpreter works for, if any
 
         self.stack: List[JSValue] = []
         self.call_stack: List[CallFrame] = []
@@ -197,13 +198,26 @@ class VM:
             # of them as the engine's own limit error, not the host's
             raise MemoryLimitError("Maximum call stack size exceeded")
 
+    def _clock_start(self) -> float:
+        """Start of the evaluation in flight.
+
+        A built-in method can outlive the evaluation whose interpreter created
+        it (kept in a global: var each = arr.forEach, var t = re.test). What it
+        runs later is bounded by the time limit of the evaluation that calls
+        it, not by the clock of the one that made it.
+        """
+        live = self.context._current_vm if self.context is not None else None
+        if live is not None and live.start_time is not None:
+            return live.start_time
+        return self.start_time
+
     def _check_limits(self) -> None:
         """Check memory and time limits."""
         self.instruction_count += 1
 
         # Check time limit every 1000 instructions
         if self.time_limit and self.instruction_count % 1000 == 0:
-            if time.monotonic() - self.start_time > self.time_limit:
+            if time.monotonic() - self._clock_start() > self.time_limit:
                 raise TimeLimitError("Execution timeout")
 
         # Check memory limit (approximate)
@@ -458,7 +472,7 @@ class VM:
 
                 def check_timeout() -> bool:
                     """Return True if time limit exceeded (to abort regex)."""
-                    return time.monotonic() - self.start_time > self.time_limit
+                    return time.monotonic() - self._clock_start() > self.time_limit
 
                 poll_callback = check_timeout
             regex = JSRegExp(pattern, flags, poll_callback)
@@ -1652,7 +1666,7 @@ class VM:
         regex_internal = regexp._internal
         if self.time_limit is not None:
             regex_internal._poll_callback = (
-                lambda: time.monotonic() - self.start_time > self.time_limit
+                lambda: time.monotonic() - self._clock_start() > self.time_limit
             )
         else:
             regex_internal._poll_callback = None
@@ -2162,7 +2176,7 @@ class VM:
                 poll_callback = None
                 if self.time_limit is not None:
                     poll_callback = (
-                        lambda: time.monotonic() - self.start_time > self.time_limit
+                        lambda: time.monotonic() - self._clock_start() > self.time_limit
                     )
                 regex_internal = self._compile_string_pattern(pattern, poll_callback)
                 is_global = False
@@ -2228,7 +2242,7 @@ class VM:
                 poll_callback = None
                 if self.time_limit is not None:
                     poll_callback = (
-                        lambda: time.monotonic() - self.start_time > self.time_limit
+                        lambda: time.monotonic() - self._clock_start() > self.time_limit
                     )
                 regex_internal = self._compile_string_pattern(pattern, poll_callback)
 
